@@ -194,13 +194,20 @@ def run_case(case):
         # (comments are no calls: each line is cut at the first comment opener that stands outside a string constant - a
         # remark that spells a RUN statement behind a backslash was taken for a call by this fallback, DESIGN 10.24)
         def no_comment(ln):
+            # (... and what stands inside a string constant is blanked: it is no call either)
             instr = False
+            out_ = []
             for k_, ch in enumerate(ln):
                 if ch == '"':
                     instr = not instr
-                elif not instr and ln.startswith("(*", k_):
-                    return ln[:k_]
-            return ln
+                    out_.append(ch)
+                elif instr:
+                    out_.append("_")
+                elif ln.startswith("(*", k_):
+                    break
+                else:
+                    out_.append(ch)
+            return "".join(out_)
 
         body = "\n".join(no_comment(ln) for ln in plain["out"].split("\n"))
         roots = {m.lower() for m in re.findall(r"(?im)(?:^\d*[ \t]*|\\[ \t]*)RUN[ \t]+(\w+)\(", body)}
